@@ -54,6 +54,7 @@ theorem afterMoveSelf_events (l1 : Lib) (env : Env) (w : Watch) (r : Raw) :
   · rw [if_pos hp]; exact Or.inl (remove_events ..)
   · rw [if_neg hp]
     split
+    all_goals (try split)
     all_goals
       rcases emit_events _ _ _ _ w r with h | ⟨e, he, h1, h2, h3, _⟩
       · exact Or.inl (by rw [h])
